@@ -24,11 +24,7 @@ EXPECTED = [
 
 
 def build(S, tier, seed):
-    S.install(loops={dates.PARSE_LOOP: dates.parse_loop_annot(),
-                     purge.PARSE_PATH_LOOP: purge.parse_path_loop_annot()})
-    deps = [dates.ParseDeletionDate(), dates.ClockNow(), dates.OlderThan()]
-    S.install(deps)
-    S.verify(purge.OkToDelete(), active=[c.key for c in deps])
+    purge.leaf_vcs(S)
     readers.restore_reader_vc(S)
     readers.list_reader_vc(S)
     purge.rm_vc(S)
